@@ -44,6 +44,17 @@ CHECKS = {
         text='CashFlow.tla (cash-flow assembly loops and payback scan as a loop machine) is model-checked exhaustively over small series of every sign pattern incl. negative capital cost; the same small series are replayed into the real CalculateRevenue, calculate_npv and CalculateFinancialPerformance; economics snapshots of real runs (all end-uses, plants, economic models, add-ons, carbon, sign-pattern drivers, examples) are validated year by year by TraceCashFlow.tla in exact rational arithmetic (cf, cum, per-product revenue, NPV both conventions, IRR residual, VIR, MOIC, payback, N/A).',
         note='Trusted: TLC, BigInteger rationals, float projection. IRR by residual <= 1e-6 of sum of |terms|; other clauses 1e-9 of sum of |terms|. SUTRA family not covered. Continuous inputs sampled by seed.',
         tech='TLA+ spec (CashFlow.tla) model-checked with TLC; TLC trace validation (TraceCashFlow.tla) of recorded runs; small-series replay into code'),
+    'C07': dict(
+        cat='model_checking', ref='DESIGN.md section 5 C07',
+        text='ReadParam.tla (decision table of ReadParameter, order of tests as in the code) is model-checked over every small '
+             '(kind, min, max, default, working value, input); the finite boundary matrix - every float/int parameter of 12 configuration '
+             'families (standard, cogeneration, heat, heat pump, chiller, district heating, add-ons, S-DAC-GT, SBT, SUTRA, overpressure, '
+             'HIP-RA-X) x {below min, min, max, above max, non-member, unit-suffixed above max} - is executed completely through the real '
+             'Model()+read_parameters and every outcome validated by TraceReadParam.tla; a seeded subset goes end-to-end through the '
+             'client (RuntimeError, no report).',
+        note='Exhaustive over the declared scalar numeric/option parameters (finite). List parameters out of scope. Documented internal '
+             'rescalings (depth, impedance x1000) are a table in the harness. Trusted: TLC, BigInteger rationals.',
+        tech='TLA+ decision-table spec (ReadParam.tla) model-checked with TLC; exhaustive boundary matrix run through the code and validated by TLC (TraceReadParam.tla)'),
     'C16': dict(
         cat='model_checking', ref='DESIGN.md section 5 C16',
         text='Schedule.tla is model-checked exhaustively over small schedules (all lifetimes<=4/6, start years, durations, '
